@@ -25,7 +25,8 @@ def configs(tier):
         # filtered listings (calendar-query per component type, index in use from the first query on)
         Config(front="wsgi", backend="bare", prefix="/", threshold=0, features={"shapes", "restart"}, names={"cal": ["a.ics", "b.ics"], "ab": [], "c2": []}, bodies={"cal": ["X", "T", "X2"], "ab": [], "c2": []},
                props={}, oracles={"C01"}, label="bare/wsgi+filtered-listings"),
-        Config(front="aio", backend="tree", prefix="/dav/", features=feats, props=props, oracles={"C01"}),
+        # (member names starting with a dot in this configuration)
+        Config(front="aio", backend="tree", prefix="/dav/", features=feats, names={"cal": ["a.ics", ".b.ics"], "ab": [".a.vcf"], "c2": ["a.ics"]}, props=props, oracles={"C01"}),
         Config(front="wsgi", backend="bare", prefix="/dav/", features=feats, props=props, bodies=rb, oracles={"C01"}),
     ]
     tw = dict(names={"cal": ["a.ics", "b.ics"], "ab": ["a.vcf"], "c2": []}, bodies={"cal": ["X", "X2"], "ab": ["K"], "c2": []}, props=props, oracles={"C01"})
